@@ -46,13 +46,17 @@ class Acc:
         if len(self.samples) < limit:
             self.samples.append(case)
 
-    def violation(self, kind, case, detail, sig=None):
-        """kind: short aspect name; case: JSON-able replayable case; sig: dict used for known-finding matching"""
+    def violation(self, kind, case, detail, sig=None, full=None):
+        """kind: short aspect name; case: JSON-able replayable case (shrunk); sig: dict used for known-finding matching;
+        full: the unshrunk case, used for the replay file when the shrunk one does not reproduce on its own"""
         self.n_violations += 1
         if len(self.violations) < MAX_VIOL_PER_SHARD:
             s = {'kind': kind}
             s.update(sig or {})
-            self.violations.append({'kind': kind, 'case': case, 'detail': str(detail)[:600], 'sig': s})
+            v = {'kind': kind, 'case': case, 'detail': str(detail)[:600], 'sig': s}
+            if full is not None and full != case:
+                v['full'] = full
+            self.violations.append(v)
 
     def export(self):
         return {
@@ -202,6 +206,9 @@ def run_check(prop, tier, seed, replay_path=None, jobs=None):
         if reported >= MAX_REPORTED:
             continue
         r1 = mod.replay(v['case'])
+        if not r1 and 'full' in v:            # context-dependent failure: keep the unshrunk case
+            v['case'] = v['full']
+            r1 = mod.replay(v['case'])
         r2 = mod.replay(v['case'])
         if json.dumps(r1, sort_keys=True, default=_json_default) != json.dumps(r2, sort_keys=True, default=_json_default):
             sys.stderr.write('HARNESS ERROR: replay of %r is not deterministic\n' % (v['case'],))
